@@ -439,17 +439,24 @@ def match_known(prop, div, behaviour=None):
         if kf.get("status", "open") != "open" or kf["property"] != prop:
             continue
         m = kf.get("match", {})
-        if "kind" in m and m["kind"] != div.get("kind"):
+        kinds = m.get("kind")
+        if kinds is not None and div.get("kind") not in (kinds if isinstance(kinds, list) else [kinds]):
             continue
         op = div.get("op") or {}
-        if "op" in m and m["op"] != (op.get("op") if isinstance(op, dict) else op):
+        opname = op.get("op") if isinstance(op, dict) else op
+        if "op" in m and m["op"] != opname:
             continue
-        if "history_has" in m:
-            names = []
-            if behaviour:
-                names = [s["op"].get("op") for s in behaviour["steps"][: div.get("step", 0) + 1]]
-            if not all(h in names for h in m["history_has"]):
-                continue
+        if "op_re" in m and not re.search(m["op_re"], str(opname)):
+            continue
+        names = []
+        if behaviour:
+            names = [s["op"].get("op") for s in behaviour["steps"][: div.get("step", 0) + 1]]
+        if "history_has" in m and not all(h in names for h in m["history_has"]):
+            continue
+        if "history_has_any" in m and not any(h in names for h in m["history_has_any"]):
+            continue
+        if "history_ends_with" in m and (not names or names[-1] != m["history_ends_with"]):
+            continue
         if "diff_re" in m:
             text = "\n".join(div.get("diff") or []) + "\n" + (div.get("detail") or "")
             if not re.search(m["diff_re"], text):
